@@ -35,6 +35,10 @@ def to_steps(seq, waits=None):
             steps.append(["begin"])
         elif s in ("send0", "send1"):
             steps.append(["send", int(s[-1]), 0, w])
+        elif s == "sendx":                                   # topic t1 (needs cluster option second_topic)
+            steps.append(["send", 100, 0, w])
+        elif s == "par01x":                                  # three tasks send to t0:0, t0:1 and t1:0 at once
+            steps.append(["par", [[["send", 0, 0, False]], [["send", 1, 0, False]], [["send", 100, 0, False]]]])
         elif s == "offsets":
             steps.append(["offsets", {"0": 5 + i}, "g"])
         elif s in ("commit", "abort"):
@@ -49,7 +53,8 @@ def to_steps(seq, waits=None):
 def make_case(seq, fault=None, waits=None, rng_seed=1, lat=None, same_leader=False):
     return {"cfg": {"request_timeout_ms": 400, "retry_backoff_ms": 10, "max_batch_size": 400, "linger_ms": 0},
             "cluster": dict({"nodes": 2, "partitions": 2, "txn_coord": 0, "group_coord": 1},
-                            **({"leaders": [1, 1]} if same_leader else {})),
+                            **({"leaders": [1, 1]} if same_leader else {}),
+                            **({"second_topic": True} if ("sendx" in seq or "par01x" in seq) else {})),
             "procs": [{"steps": to_steps(seq, waits)}], "kills": [], "faults": [fault] if fault else [],
             "env": [], "marker_delays": [0.0], "lat": lat or [0.001], "chunks": [0], "rng_seed": rng_seed,
             "seq": list(seq), "run_for": 30.0}
@@ -92,7 +97,9 @@ def evaluate(case, obs):
     legal_seen = False
     ambiguous = 0
     err_applied = False
-    top = [s for s in obs.steps]
+    # steps of concurrent tasks ("par") are recorded in start order: the model walks them in the order in which they
+    # completed (for sequential programs this is the recorded order)
+    top = sorted(obs.steps, key=lambda x: (x.get("t_return", 1e18) if x["step"] == "send" else x["t_call"], x["t_call"]))
     # map nested ctx sends: steps inside a ctx body are recorded after the ctx record itself; we only walk
     # top-level records (ctx records carry their own verdict) - nested sends have t_call inside the ctx span
     spans = [(s["t_call"], s.get("t_return", 1e18)) for s in top if s["step"] in ("ctx_ok", "ctx_exc")]
@@ -295,6 +302,29 @@ def abortable_fault_cases(shard, nshards):
                                         lat=[0.001], same_leader=bool(k % 2))
 
 
+MIXED_AUTH_SEQS = [["begin", "sendx", "commit", "begin", "par01x", "abort", "begin", "send0", "commit"],
+                   ["begin", "sendx", "send0", "commit", "begin", "par01x", "commit", "abort", "begin", "send0", "send1", "commit"],
+                   ["begin", "send0", "sendx", "abort", "begin", "send0", "commit"],
+                   ["begin", "sendx", "send0", "send1", "abort", "begin", "send0", "send1", "commit"],
+                   ["begin", "send0", "sendx", "commit", "abort", "begin", "send0", "commit"],
+                   ["begin", "send0", "send1", "sendx", "abort", "begin", "send1", "commit"]]
+
+
+def mixed_authorization_cases(shard, nshards):
+    """One AddPartitionsToTxn names an unauthorized topic (t1) next to authorized partitions of t0: the broker adds
+    nothing, answers TOPIC_AUTHORIZATION_FAILED for t1 and OPERATION_NOT_ATTEMPTED for the rest.  None of the
+    queued records may reach a leader, the transaction can only be aborted, the next one works."""
+    i = 0
+    for seq in MIXED_AUTH_SEQS:
+        for k in (0, 1, 2):
+            for waits in ([0], [1], [0, 1]):
+                for same in (False, True):
+                    i += 1
+                    if i % nshards == shard:
+                        yield make_case(seq, {"sel": "add_partitions", "k": k, "act": "auth_topic", "topic": "t1", "code": 29},
+                                        waits=waits, rng_seed=7, lat=[0.001], same_leader=same)
+
+
 def strategy():
     from hypothesis import strategies as st
 
@@ -344,6 +374,8 @@ def campaigns(tier):
     return [Campaign("call_sequences", "enum", execute=execute, cases=lambda s, k: enum_cases(s, k, n),
                      exhaustive=True, setup=TS.setup),
             Campaign("abortable_fault", "enum", execute=execute, cases=abortable_fault_cases, exhaustive=True,
+                     setup=TS.setup),
+            Campaign("mixed_authorization", "enum", execute=execute, cases=mixed_authorization_cases, exhaustive=True,
                      setup=TS.setup),
             Campaign("partial_produce_fault", "enum", execute=execute, cases=partial_fault_cases, exhaustive=True,
                      setup=TS.setup),
